@@ -322,6 +322,7 @@ fn body(seed: u64, turns: usize, policy: u64, order: u64) {
     }
     let eq = clone == g;
     say(&format!("STAGE eq {}", eq));
+    twin_queries(&g);
     release_ways(&g);
     if order % 2 == 0 {
         drop(clone);
@@ -377,6 +378,36 @@ fn deep_copy(g: &GameState) -> Option<GameState> {
     let pb = PieceBoard::new(pbs.p1_pieces, pbs.elephants, pbs.camels, pbs.horses, pbs.dogs, pbs.cats, pbs.rabbits);
     let phase = Phase::PlayPhase(PlayPhase::new(h, list, vec![], pp.push_pull_state(), pp.piece_trapped_this_turn()));
     Some(GameState::new(side, g.move_number(), phase, pb, h))
+}
+
+/// The same questions asked alternately of the game and of an independent copy of it (equal content,
+/// history nodes of its own - what replaying a game record or restoring a stored game gives): anything
+/// that compares two long histories with each other does so here.
+fn twin_queries(g: &GameState) {
+    let twin = match deep_copy(g) {
+        Some(t) => t,
+        None => {
+            say("STAGE twin_queries skipped");
+            return;
+        }
+    };
+    let mut acc = 0usize;
+    let eq = twin == *g;
+    acc += eq as usize;
+    let first = g.valid_actions().into_iter().find(|a| matches!(a, Action::Move(..)));
+    for round in 0..2 {
+        for s in [g, &twin] {
+            acc += s.valid_actions().len() + s.can_pass(true) as usize + s.is_terminal().is_some() as usize;
+        }
+        if let Some(a) = first.as_ref() {
+            let (n1, n2) = (g.take_action(a), twin.take_action(a));
+            for s in [&n1, &n2, &n1, &n2] {
+                acc += s.valid_actions().len() + s.can_pass(true) as usize + s.can_pass(false) as usize + s.is_terminal().is_some() as usize + s.has_move(s.piece_board()).is_some() as usize;
+            }
+            acc += (n1 == n2) as usize;
+        }
+        say(&format!("STAGE twin_queries round={} {}", round, acc));
+    }
 }
 
 /// Every way in which client code lets go of a state that is the sole owner of a long history: not only
